@@ -207,7 +207,7 @@ pub fn run(ctx: &Ctx) -> Report
          target from the cache whose mtime equals an mtime present before the build; distinct by case hash");
     rep.assume("the table-less run is ruler itself with less information: no model of the shortcut is involved");
     rep.assume("time always advances between user actions and invocations; user actions never move files between paths");
-    let (cases, max_rules, max_ops) = ctx.tier.pick((8000u32, 5usize, 14usize), (120000, 9, 36));
+    let (cases, max_rules, max_ops) = ctx.tier.pick((12000u32, 5usize, 14usize), (120000, 9, 36));
     rep.absorb(drive::drive(ctx, 18, cases, || strategy(max_rules, max_ops), test_case));
     rep
 }
